@@ -51,12 +51,12 @@ _QUERY_KINDS = {
     4: ("oracle-wf", "option.TrimSpace / ParseInt / ParseBool as observed differ from the modelled parsers (Model.Conv)", True),
 }
 _QUERY_EXPECTED = lambda kind, cid: "Eval vm_compute in (map expected_query (filter (fun c => N.eqb (qid c) %d) qcases))." % cid
-_QUERY_ASSUME = ["column names are resolved to positions by the harness (Header.FieldIndex is not modelled); HAVING, LATERAL, sub-queries inside expressions and recursive CTEs are outside the modelled fragment and never generated; NATURAL/USING are translated by the harness (C03 only)"]
+_QUERY_ASSUME = ["column names are resolved to positions by the harness (Header.FieldIndex is not modelled); HAVING and sub-queries inside expressions are outside the modelled fragment and never generated; LATERAL joins and recursive CTEs are modelled and generated for C03 only; NATURAL/USING are translated by the harness (C03 only)"]
 
 PROPS["C03"] = dict(
     theorem_file="Properties/C03.v", kinds=_QUERY_KINDS, expected=_QUERY_EXPECTED,
     trusted=COMMON_TRUST + [FLOAT_TRUST, ORACLE_TRUST], assumptions=_QUERY_ASSUME,
-    level_text="Proof: Coq theorems (Properties/C03.v) over ALL tables and conditions: WHERE returns exactly the order-preserving sublist of rows whose condition is TRUE (an evaluation error is an error of the whole clause, never a partial result); CROSS/INNER/LEFT/RIGHT/FULL joins of the model equal their list-comprehension definitions, with membership characterisations (pairs with a TRUE condition; each unmatched row exactly once, NULL-padded; nothing else) and compositionality over contiguous ranges of left rows (the goroutine split). The model (Model/Query.v: sources incl. derived tables, joins nested to any depth, WHERE, select list) is tied to the code by running generated queries through parser.Parse + query.Select at cpu 1 and 4 and comparing rows (sequence for single sources, multiset for joins) with eval_query inside Coq. Common table expressions (several references) are expanded to derived tables; USING and NATURAL joins are a derived form of the model (Model/Using.v src_using): the join on the equality of the named columns followed, row by row and in the join's order, by one merged column per name (the left operand's value - the right one's for RIGHT joins - or the other side's where that is NULL) and the remaining columns of both sides (C03_using_join_merges_the_named_columns_once); the harness computes only the column positions from the names. Partial: LATERAL, sub-queries in expressions, recursive CTEs and name resolution are not modelled.",
+    level_text="Proof: Coq theorems (Properties/C03.v) over ALL tables and conditions: WHERE returns exactly the order-preserving sublist of rows whose condition is TRUE (an evaluation error is an error of the whole clause, never a partial result); CROSS/INNER/LEFT/RIGHT/FULL joins of the model equal their list-comprehension definitions, with membership characterisations (pairs with a TRUE condition; each unmatched row exactly once, NULL-padded; nothing else) and compositionality over contiguous ranges of left rows (the goroutine split). The model (Model/Query.v: sources incl. derived tables, joins nested to any depth, WHERE, select list) is tied to the code by running generated queries through parser.Parse + query.Select at cpu 1 and 4 and comparing rows (sequence for single sources, multiset for joins) with eval_query inside Coq. Common table expressions (several references) are expanded to derived tables; USING and NATURAL joins are a derived form of the model (Model/Using.v src_using): the join on the equality of the named columns followed, row by row and in the join's order, by one merged column per name (the left operand's value - the right one's for RIGHT joins - or the other side's where that is NULL) and the remaining columns of both sides (C03_using_join_merges_the_named_columns_once); the harness computes only the column positions from the names. LATERAL joins and recursive common table expressions are part of the model (SrcLateral / SrcRec carry the derived table resp. the recursive term as a Gallina function of the left row resp. of the rows of the temporary view; the harness emits them as lambdas): C03_lateral_join_rows (the rows are, per left row and in order, the CROSS/INNER/LEFT join of that row alone with the derived table evaluated for it; iff), C03_lateral_without_reference_is_the_plain_join, C03_lateral_error_is_total, C03_lateral_right_full_rejected, C03_recursive_cte_rows (base rows followed by the chain of iterations up to the first empty one, combined by UNION ALL or UNION; iff, with the iteration limit), C03_recursive_cte_iterations_are_determined, C03_recursive_cte_limit_is_an_error, C03_recursive_union_keeps_one_row_per_key; both are generated (LATERAL with aggregates / LIMIT inside and joins, derived tables or CTEs on the left; recursive counters and key walks under --limit-recursion 3/5/8/1000) and compared like every other query. Partial: sub-queries inside expressions (EXISTS / IN / scalar) and name resolution are not modelled; the former are covered by fixed scenarios only.",
     level_note="Trusted: Coq kernel + vm_compute; primitive floats; Go harness incl. its resolution of column names to positions; string oracles. Join results are compared as multisets (the property does not fix join order).",
     design_ref="DESIGN.md section 5 (C03)")
 
@@ -91,7 +91,7 @@ PROPS["C05"] = dict(
     expected=lambda kind, cid: ("Eval vm_compute in (map expected_multi (filter (fun c => N.eqb (mid c) %d) mcases))." % cid) if cid >= 500000 else ("Eval vm_compute in (map expected_dml (filter (fun c => N.eqb (did c) %d) dcases))." % cid),
     trusted=COMMON_TRUST + [FLOAT_TRUST, ORACLE_TRUST],
     assumptions=_QUERY_ASSUME + ["multi-table forms are modelled for two inner-joined file tables (DELETE of either or both, UPDATE of the first); stdin tables are not covered", "column names are resolved to positions by the harness, which tracks ADD/DROP/RENAME"],
-    level_text="Proof: Coq theorems (Properties/C05.v) over ALL tables and statements of the modelled single-table forms: INSERT appends exactly the given rows in order (listed columns get their value, the others NULL; old rows and width untouched; count = rows given); UPDATE keeps number and order of rows, leaves rows whose condition is not TRUE unchanged and, in matching rows, every column outside the SET list (count = matching rows); DELETE keeps exactly the non-matching rows in order (count = removed); REPLACE keeps every existing row in its place, changes it at most in the listed non-key columns, and appends the given rows that matched nothing in the order given; multi-table DELETE removes from each target table exactly the rows that take part in a joined row on which ON and WHERE are TRUE (a non-target table is untouched) and multi-table UPDATE keeps number and order of the target's rows and leaves rows that take part in no such joined row unchanged; ADD COLUMN / DROP COLUMN / RENAME leave the other cells and their order untouched; histories compose (fold) and a failing statement changes nothing. The model (Model/Dml.v incl. REPLACE after the repair of the map-order defect) is tied to the code by histories of 1-10 statements on file tables and temporary tables through parser.Parse + Processor.ExecuteStatement, comparing the reported count and SELECT * after every statement inside Coq. Multi-table DELETE / UPDATE over two joined tables are modelled (delete_join, update_join) and compared the same way, including per-file counts and the files after COMMIT. Partial: REPLACE and the multi-table forms have no general theorem yet (model + correspondence + examples only).",
+    level_text="Proof: Coq theorems (Properties/C05.v) over ALL tables and statements of the modelled single-table forms: INSERT appends exactly the given rows in order (listed columns get their value, the others NULL; old rows and width untouched; count = rows given); UPDATE keeps number and order of rows, leaves rows whose condition is not TRUE unchanged and, in matching rows, every column outside the SET list (count = matching rows); DELETE keeps exactly the non-matching rows in order (count = removed); REPLACE keeps every existing row in its place, changes it at most in the listed non-key columns, and appends the given rows that matched nothing in the order given; multi-table DELETE removes from each target table exactly the rows that take part in a joined row on which ON and WHERE are TRUE (a non-target table is untouched) and multi-table UPDATE keeps number and order of the target's rows and leaves rows that take part in no such joined row unchanged; ADD COLUMN / DROP COLUMN / RENAME leave the other cells and their order untouched; histories compose (fold) and a failing statement changes nothing. The model (Model/Dml.v incl. REPLACE after the repair of the map-order defect) is tied to the code by histories of 1-10 statements on file tables and temporary tables through parser.Parse + Processor.ExecuteStatement, comparing the reported count and SELECT * after every statement inside Coq. Multi-table DELETE / UPDATE over two joined tables are modelled (delete_join, update_join) and compared the same way, including per-file counts and the files after COMMIT. Multi-table DELETE over LEFT / RIGHT / FULL joins, where a joined row can lack the record of one table, is modelled on top of the C03 join over rows extended by their position (delete_join_k; C05_multi_table_delete_any_join: a row leaves a target table iff its position occurs in a joined row that ON and WHERE keep) and generated. Partial: which value a multi-table UPDATE writes is model + correspondence only.",
     level_note="Trusted: Coq kernel + vm_compute; primitive floats; Go harness incl. its tracking of column names; string oracles.",
     design_ref="DESIGN.md section 5 (C05)")
 
